@@ -546,9 +546,11 @@ def check_sequential(run, res, label, witness_extra, same_history=None):
 # start value sets (absolute next-counter values; shift k = value - base)
 # --------------------------------------------------------------------------------------------------
 USER_K = [0, 1, 8, 9, 10, 90, 99, 100, 990]  # the k set of the design (shifts = number of throw-away objects)
-DENSE = sorted(set(range(0, 13)) | set(range(88, 102)) | set(range(988, 1002)))  # singles (thorough), absolute
+# singles (thorough), absolute: every start from which one of up to 9 consecutive objects crosses 10 / 100,
+# and the starts around 1000
+DENSE = sorted(set(range(1, 12)) | set(range(91, 102)) | {990} | set(range(998, 1002)))
 PAIR_QUICK = [9, 99]  # absolute starts
-PAIR_FULL = [1, 8, 9, 10, 90, 99, 100, 990, 999]  # absolute starts
+PAIR_FULL = [9, 10, 99, 100, 999]  # absolute starts
 MULTI_QUICK = [9, 99]  # absolute starts for states shifting >= 3 counters (quick)
 MULTI_FULL = [9, 10, 99]  # ... (thorough)
 IRRELEVANT_QUICK = [9]  # absolute starts at which forms NOT consuming the shifted class are also checked
